@@ -112,8 +112,22 @@ func runC16(c *sim.Ctx) *sim.Violation {
 		first := byte(fb)
 		a := c16Body(c, first)
 		frame, _ := ref.Encode(a)
+		damaged := false
+		if first>>4 != 0 && c.T.Bool(1, 3) {
+			// a body that is not valid but may still be accepted (reserved bits set,
+			// flipped bytes): whenever decoding succeeds, type and flags must hold
+			frame = damageBody(c.T, frame)
+			damaged = true
+		}
 		_, body, _, _ := ref.SplitFrame(frame)
 		got := ReadOne(link.NewReader(c, frame, link.Mode{}))
+		if damaged {
+			if got.Kind != "packet" {
+				c.Count("damaged-body.rejected")
+				continue
+			}
+			c.Count("probe.damaged-but-accepted-body")
+		}
 		c.Ev("first-byte", int64(fb), int64(len(frame)), 0)
 		sig := func(what string) string { return fmt.Sprintf("C16/0x%02X/%s", first, what) }
 		desc := func() string { return fmt.Sprintf("frame %s -> %s", hexs(frame), got) }
